@@ -249,6 +249,7 @@ func TestVerifObserver(t *testing.T) {
 			}
 			client.mu.Unlock()
 			ss := newVfServerStream(md)
+			opensBefore := client.numStreams()
 			res := make(chan string, 1)
 			go func() {
 				defer func() {
@@ -281,6 +282,11 @@ func TestVerifObserver(t *testing.T) {
 			}
 			ss.cancel()
 			cleanup()
+			if out == "served" && clientOK && (mode == "default" || mode == "lcm" || mode == "routing") && client.numStreams() == opensBefore {
+				// the handler ended the stream with OK although it never opened the stream towards the serving cluster:
+				// neither served nor rejected
+				out = "dropped"
+			}
 			if out == "BLOCKED" || lockState() == "locked=1" {
 				wedged = true
 				fmt.Fprintf(w, "H %s active=? %s\n", out, lockState())
